@@ -15,7 +15,7 @@ Proof. exact ApiProofs.step_tree_unchanged. Qed.
 Print Assumptions step_tree_unchanged.
 
 (* Inv (sibling cpusets pairwise disjoint and ordered, child sets inside the parent's, parent cpuset = union
-   of the children's, gp_index unique and below next_gp_index, allowed sets inside the root's complete sets)
+   of the children's, gp_index unique and below next_gp_index, allowed sets inside the root's cpuset/nodeset)
    is preserved by every such call, for every argument.  _partial: insert_misc and insert_group are excluded;
    for Group insertion the full statement is FALSE on the faithful model (refuted below). *)
 Theorem step_preserves_inv_partial : forall t c, structural c = false -> Inv t -> Inv (fst (step t c)).
@@ -30,38 +30,28 @@ Print Assumptions history_preserves_inv_partial.
 Example Inv_nonvacuous : Inv topo1 /\ Inv (run topo1 [CAllow 4 (Some (bs_of_N 3)) None; CInfoAdd 8 (Some "a"%string) (Some "b"%string); CGroupFree (gsp 3 true 0)]).
 Proof. split; [exact Inv_topo1|]. apply ApiProofs.history_preserves_inv_partial; [reflexivity|exact Inv_topo1]. Qed.
 
-(* allowed sets stay inside the root's complete sets after hwloc_topology_allow, for every flag word and sets *)
+(* allowed sets stay inside the root's cpuset / nodeset after hwloc_topology_allow, for every flag word and
+   every sets (ALL included: fix fe89389) *)
 Theorem allow_preserves_allowed : forall t f c n, allowed_ok t -> allowed_ok (fst (step_allow t f c n)).
 Proof. exact ApiProofs.allow_preserves_allowed. Qed.
 Print Assumptions allow_preserves_allowed.
 
-(* ... but ALL copies the root COMPLETE sets: with an offline PU the allowed cpuset leaves the root cpuset
-   (hwloc_topology_check: hwloc_bitmap_isincluded(allowed_cpuset, root->cpuset)) *)
-Theorem allow_all_within_root_cpuset_refuted : exists t,
-  bs_subset (m_acpu t) (root_set t o_cs) = true /\
-  snd (step t (CAllow HWLOC_ALLOW_FLAG_ALL None None)) = RInt 0 /\
-  bs_subset (m_acpu (fst (step t (CAllow HWLOC_ALLOW_FLAG_ALL None None)))) (root_set t o_cs) = false.
-Proof. exists topo_off. exact allow_all_leaves_root_cpuset. Qed.
-Print Assumptions allow_all_within_root_cpuset_refuted.
+Example allow_nonvacuous :
+  allowed_ok topo_off /\ snd (step topo_off (CAllow HWLOC_ALLOW_FLAG_ALL None None)) = RInt 0 /\
+  m_acpu (fst (step topo_off (CAllow HWLOC_ALLOW_FLAG_ALL None None))) = bs_of_N 15.
+Proof. split; [split; vm_compute; reflexivity|exact allow_all_example]. Qed.
 
 (* A call that fails with an errno leaves every observable attribute unchanged (tree, flags, filters, allowed
-   sets, infos, per-object extras), for every call and argument except CUSTOM allow with both sets. *)
-Theorem step_error_is_identity_partial : forall t c e,
-  partial_update_call c = false -> snd (step t c) = RErr e -> obs (fst (step t c)) = obs t.
-Proof. exact ApiProofs.step_error_is_identity_partial. Qed.
-Print Assumptions step_error_is_identity_partial.
+   sets, infos, per-object extras): for EVERY modelled call and EVERY argument (CUSTOM allow included: fix b0d22fb). *)
+Theorem step_error_is_identity : forall t c e,
+  snd (step t c) = RErr e -> obs (fst (step t c)) = obs t.
+Proof. exact ApiProofs.step_error_is_identity. Qed.
+Print Assumptions step_error_is_identity.
 
 Example error_identity_nonvacuous :
-  snd (step topo0 (CAllow 8 None None)) = RErr EINVAL /\ snd (step topo0 (CGroup (gsp 0 false 0))) = RErr EINVAL.
-Proof. split; vm_compute; reflexivity. Qed.
-
-Theorem step_error_is_identity_refuted : exists t c,
-  snd (step t c) = RErr EINVAL /\ m_acpu (fst (step t c)) <> m_acpu t.
-Proof.
-  exists topo0d, (CAllow HWLOC_ALLOW_FLAG_CUSTOM (S 3) (S 32)).
-  destruct allow_einval_partial_update as (H1 & H2 & H3). split; [exact H1|]. rewrite H2, H3. discriminate.
-Qed.
-Print Assumptions step_error_is_identity_refuted.
+  snd (step topo0 (CAllow 8 None None)) = RErr EINVAL /\ snd (step topo0 (CGroup (gsp 0 false 0))) = RErr EINVAL /\
+  snd (step topo0d (CAllow HWLOC_ALLOW_FLAG_CUSTOM (S 3) (S 32))) = RErr EINVAL.
+Proof. repeat split; vm_compute; reflexivity. Qed.
 
 (* gp_index: through any history of non-restructuring calls the tree (hence every gp_index) is the same *)
 Theorem gp_index_stable_partial : forall cs t,
@@ -96,12 +86,6 @@ Theorem step_preserves_inv_refuted : exists t g,
   Inv t /\ tree_inv (m_root (fst (step t (CGroup g)))) = false.
 Proof. exists topo2, (gsp 3 true 7). split; [exact Inv_topo2|exact group_dontmerge_same_cpuset_breaks_inv]. Qed.
 Print Assumptions step_preserves_inv_refuted.
-
-(* ... and a dont_merge Group over a mergeable Group returns the zeroed struct (gp_index 0) *)
-Theorem group_insert_returns_linked_object_refuted : exists t g,
-  Inv t /\ snd (step t (CGroup g)) = RObj (Some 0) true.
-Proof. exists topo1, (gsp 3 true 3). split; [exact Inv_topo1|]. exact (proj1 group_replace_returns_zeroed). Qed.
-Print Assumptions group_insert_returns_linked_object_refuted.
 
 (* hwloc___insert_object_by_cpuset, one level, for every children list: when every child is disjoint from
    OBJ or strictly inside it, OBJ is inserted, the disjoint children stay in order, the others become OBJ's
